@@ -306,7 +306,7 @@ def overlay_udgs(bg, fg, x, y, mask=0, rattr=None, rbyte=None):
             xshift_r = 8 - xshift
             bit_mask = (255 << xshift_r) & 255
             for row in fg_udgs:
-                row.append(Udg(row[-1].attr, [0] * 8, [255] * 8))
+                row.append(Udg(row[-1].attr, [0] * 8, [255] * 8 if row[-1].mask else None))
                 bits, mbits = [0] * 8, [bit_mask] * 8
                 for udg in row:
                     for i in range(8):
@@ -318,7 +318,7 @@ def overlay_udgs(bg, fg, x, y, mask=0, rattr=None, rbyte=None):
                             udg.mask[i] = (udg.mask[i] >> xshift) | mbits[i]
                             mbits[i] = msbits
         if yshift:
-            fg_udgs.append([Udg(u.attr, [0] * 8, [255] * 8) for u in fg_udgs[-1]])
+            fg_udgs.append([Udg(u.attr, [0] * 8, [255] * 8 if u.mask else None) for u in fg_udgs[-1]])
             for i in range(len(fg_udgs[0])):
                 rows, mrows = [0] * yshift, [255] * yshift
                 for row in fg_udgs:
